@@ -90,7 +90,8 @@ impl<'a, P: ?Sized + PathImpl> PathMutImpl<'a, P> {
 		}
 
 		let disambiguate = self.is_empty()
-			&& ((self.start == 0 && segment.looks_like_scheme()) || segment.is_empty());
+			&& ((self.start == 0 && parse::first_segment_contains_colon(segment.as_bytes()))
+				|| segment.is_empty());
 
 		if disambiguate {
 			let start = self.first_segment_offset();
